@@ -19,8 +19,8 @@
 //!   step whose caller returns OK, and then force ∨ its epoch > the epoch installed before; without
 //!   forced callers the installed epoch never decreases and at quiescence equals the maximum over all
 //!   callers whose hosts match (so every OLD_EPOCH is justified); NOT_MY_META ⇔ foreign host; and a
-//!   follow-up message with epoch installed+1 must be applied (finding F05a when a forced caller
-//!   raced with another one).
+//!   follow-up message with epoch installed+1 must be applied — also after a forced caller raced with
+//!   another one (finding F05a, fixed in be85753; corpus/C05/setrepl.f05a.ops is its regression case).
 use serde_json::json;
 use std::cell::{Cell, RefCell};
 use std::collections::BTreeMap;
@@ -476,7 +476,8 @@ struct Case {
     ep_has_force: bool,
     ep_comparable: bool,
     in_episode: bool,
-    /// a forced caller has been in flight together with another caller (finding F05a's precondition)
+    /// a forced caller has been in flight together with another caller (the situation of the fixed
+    /// finding F05a; only counted now)
     tainted: bool,
     failed: bool,
 }
@@ -573,7 +574,7 @@ impl Runner {
             c.exp_roles = if m.dual_key() { None } else { Some(m.canon()) };
         }
         if reply != expect {
-            let finding = if c.tainted && expect == "OK" && reply == "OLD_EPOCH" && !m.force { "F05a" } else { "" };
+            let finding = "";
             let what = format!(
                 "sequential SETREPL epoch {} (force={}) answered `{}`, the property prescribes `{}` (epoch {} was installed)",
                 m.epoch, m.force, reply, expect, epoch_before
@@ -802,16 +803,14 @@ impl Runner {
                 .unwrap_or(0);
             if installed != want {
                 let what = format!("at quiescence epoch {} is installed, the maximum delivered epoch is {}", installed, want);
-                let finding = if c.tainted && installed < want { "F05a" } else { "" };
-                self.fail(c, what, finding);
+                self.fail(c, what, "");
             }
             for i in c.ep_start..c.msgs.len() {
                 let m = &c.msgs[i];
                 if let Ev::Done(r) = &c.w.threads[i].state {
                     if r == "OLD_EPOCH" && m.epoch > installed {
                         let what = format!("t{} (epoch {}) answered OLD_EPOCH but only epoch {} is installed at quiescence", i, m.epoch, installed);
-                        let finding = if c.tainted { "F05a" } else { "" };
-                        self.fail(c, what, finding);
+                        self.fail(c, what, "");
                     }
                 }
             }
@@ -998,9 +997,6 @@ fn concurrent_case(r: &mut Runner, rng: &mut Rng) {
             }
         }
         r.finish_episode(&mut c);
-        if c.tainted {
-            break;
-        }
     }
     r.close_case(c, true);
 }
